@@ -515,6 +515,18 @@ func (eng *Engine) touchBlock(b *ssa.BasicBlock, t map[string]bool) {
 					t[k] = true
 				}
 			default:
+				// a function value that cannot be a separator function (A-SF covers func() (string, ...) only):
+				// type-based call graph - every function or function literal of the loaded packages with an
+				// identical signature may be the callee
+				if sig, ok := c.Value.Type().Underlying().(*types.Signature); ok && !sfShaped(sig) {
+					t["@alloc"] = true
+					for _, f := range eng.funcsWithSig(sig) {
+						for k := range eng.touchFunc(f) {
+							t[k] = true
+						}
+					}
+					continue
+				}
 				// function value: closures created in this function, plus the A-SF contract
 				for _, bb := range b.Parent().Blocks {
 					for _, x := range bb.Instrs {
@@ -595,4 +607,48 @@ func (eng *Engine) externTouch(fn *ssa.Function, t map[string]bool) {
 		t["@alloc"] = true
 		t[eng.regSlice(types.Typ[types.Uint8])] = true
 	}
+}
+
+// sfShaped: the signature of a separator function, func() (string, <entropy>).
+func sfShaped(sig *types.Signature) bool {
+	if sig.Params().Len() != 0 || sig.Results().Len() != 2 {
+		return false
+	}
+	b, ok := sig.Results().At(0).Type().Underlying().(*types.Basic)
+	return ok && b.Kind() == types.String
+}
+
+// funcsWithSig: all functions and function literals of the verified packages whose signature is identical to sig
+// (receivers excluded: a method value would appear as a bound-method closure, which this code base does not create).
+func (eng *Engine) funcsWithSig(sig *types.Signature) []*ssa.Function {
+	var out []*ssa.Function
+	var visit func(f *ssa.Function)
+	visit = func(f *ssa.Function) {
+		if f.Signature.Recv() == nil && types.Identical(f.Signature, sig) {
+			out = append(out, f)
+		}
+		for _, a := range f.AnonFuncs {
+			visit(a)
+		}
+	}
+	for _, sp := range eng.spkg {
+		for _, m := range sp.Members {
+			if f, ok := m.(*ssa.Function); ok {
+				visit(f)
+			}
+			if tn, ok := m.(*ssa.Type); ok {
+				for _, T := range []types.Type{tn.Type(), types.NewPointer(tn.Type())} {
+					ms := eng.prog.MethodSets.MethodSet(T)
+					for i := 0; i < ms.Len(); i++ {
+						if f := eng.prog.MethodValue(ms.At(i)); f != nil && eng.ours(f) {
+							for _, a := range f.AnonFuncs {
+								visit(a)
+							}
+						}
+					}
+				}
+			}
+		}
+	}
+	return out
 }
